@@ -219,3 +219,37 @@ pub fn canary_reach() {
         kani::cover!(true, "rejected target");
     }
 }
+
+// ---------------------------------------------------------------- witnesses (C12, F3)
+// RustTarget::from_str is NOT under contract (string splitting, parse::<u64>
+// and format! put symbolic inputs out of CBMC's reach).  These are concrete
+// inputs only: reported as witnesses, never counted as proved.  The first two
+// panicked ("attempt to subtract with overflow") before /repo commit d0e54312.
+// error paths build their message with format!, which CBMC cannot digest:
+// the message text is irrelevant to the property, so it is stubbed (trusted)
+pub fn stub_format(_args: core::fmt::Arguments<'_>) -> String {
+    String::new()
+}
+
+#[kani::proof]
+#[kani::stub(alloc::fmt::format, stub_format)]
+#[kani::unwind(24)]
+pub fn from_str_witness_nightly_underflow() {
+    use std::str::FromStr;
+    assert!(RustTarget::from_str("1.0-nightly").is_err());
+}
+#[kani::proof]
+#[kani::stub(alloc::fmt::format, stub_format)]
+#[kani::unwind(24)]
+pub fn from_str_witness_nightly_underflow_patch() {
+    use std::str::FromStr;
+    assert!(RustTarget::from_str("1.0.0-nightly").is_err());
+}
+#[kani::proof]
+#[kani::unwind(24)]
+pub fn from_str_witness_accepts() {
+    use std::str::FromStr;
+    assert!(RustTarget::from_str("1.83.1-nightly").is_ok());
+    assert!(RustTarget::from_str("nightly").is_ok());
+    assert!(RustTarget::from_str("1.71").is_ok());
+}
